@@ -2,7 +2,9 @@
 use crate::report::Report;
 use crate::rng::Rng;
 
+pub mod c09;
 pub mod c10;
+pub mod c18;
 
 #[derive(Clone, Debug)]
 pub struct Ctx {
@@ -42,7 +44,9 @@ impl Ctx {
 
 pub async fn dispatch(prop: &str, ctx: &Ctx, rep: &mut Report) -> bool {
     match prop {
+        "C09" => c09::run(ctx, rep).await,
         "C10" => c10::run(ctx, rep).await,
+        "C18" => c18::run(ctx, rep).await,
         _ => return false,
     }
     true
